@@ -16,7 +16,9 @@ import (
 	"verifharness/core"
 )
 
-func init() { core.Register(core.Check{ID: "C07", Level: "exploration", Run: runC07}) }
+func init() {
+	core.Register(core.Check{ID: "C07", Level: "exploration", Run: func(c *core.Ctx) { runC07(c); reentrancyPass(c, "C07") }})
+}
 
 type c07reader struct {
 	data []byte
